@@ -21,6 +21,7 @@ CLAIMS = {
  'C19': ('soft clipper: in-range input with cleared memory is bit-for-bit untouched, degenerate arguments touch nothing, and for excursions whose samples all saturate at +-2 (any larger magnitude incl. infinities) the output stays in [-1,1] without sign flips, all for frames of 1-4 samples; general excursions, channel independence and the decoder gain law gave no solver verdict and are not claimed', '2/C19'),
  'C05': ('packetisation glue of the encoder (opus_encode_native, frame encoder stubbed) from any state satisfying the written invariant: result in [1,max_data_bytes] or a documented error, no store at or behind data[max_data_bytes], CBR budget == round(bitrate x duration / 8) clipped to [1,min(max,1276)] incl. AUTO/MAX, padding to the CBR size for low-budget and repacketised packets, two bytes always suffice; that the real frame coders keep to their budget and constrained-VBR averages are not claimed', '2/C05 and 7.2'),
  'C15': ('the SSE4.1 LTP codebook search silk_VQ_WMat_EC_sse4_1 (real source over plain-C lane models validated against the host CPU) returns bit-identical results to silk_VQ_WMat_EC_c for every int32 input, per real codebook row; all other dispatched kernels are outside the claim', '2/C15 and 7.2'),
+ 'C09': ('duration and placement contract of loss handling only: a concealment or FEC request of a multiple of 2.5 ms returns exactly that duration, anything else is rejected before decoding; FEC = concealment for the gap placed back to back + exactly one FEC decode of the first frame at frame_size - packet duration; pure concealment when no FEC can be present; last_packet_duration updated; LBRR flag positions; level, decay, FEC accuracy and re-convergence of the audio are not claimed', '2/C09 and 7.2'),
  'C08': ('range coder round trips, accounting invariant (inductive) and termination lemma decided over all parameters within small buffer/sequence bounds', '2/C08'),
 }
 NA = {
